@@ -244,6 +244,14 @@ func (n *network) dial(addr string) (net.Conn, error) {
 	return rc, nil
 }
 
+// The request path carries the request id and a long fixed marker.  The plaintext sniff looks for the WHOLE token in the raw bytes the
+// client wrote: a short token such as "/r5_" (4 bytes) occurs by chance in TLS ciphertext / handshake randoms about once per 10^6
+// (connection, request) pairs — which is one false "https request visible in clear text" per thorough run.  With the marker the token is
+// >= 26 bytes long and a chance occurrence in random bytes has probability < 2^-200.
+const plainMarker = "vErIfPlAiNtExTmArKeR01"
+
+func pathOf(rid int) string { return "/r" + strconv.Itoa(rid) + "_" + plainMarker }
+
 func ridOfPath(p []byte) int {
 	// "/r<rid>_"
 	if len(p) < 4 || p[0] != '/' || p[1] != 'r' {
@@ -356,7 +364,7 @@ func (w *lbWrap) PendingRequests() int { return w.hc.PendingRequests() }
 // ---- running one history ----------------------------------------------------------------------
 
 func urlOf(h hopD, rid int, prev *hopD) (location string) {
-	path := "/r" + strconv.Itoa(rid) + "_"
+	path := pathOf(rid)
 	switch h.Form {
 	case "upper":
 		return strings.ToUpper(h.Scheme) + "://" + strings.ToUpper(h.Host) + path
@@ -576,7 +584,7 @@ func runHist(d desc) (coqCalls []string, res histResult) {
 			req, resp = fasthttp.AcquireRequest(), fasthttp.AcquireResponse()
 		}
 		h0 := hops[0]
-		path := "/r" + strconv.Itoa(first) + "_"
+		path := pathOf(first)
 		other := map[string]string{"http": "https", "https": "http"}[h0.Scheme]
 		switch {
 		case resend:
@@ -719,7 +727,7 @@ func runHist(d desc) (coqCalls []string, res histResult) {
 		isTLS := len(raw) >= 2 && raw[0] == 0x16 && raw[1] == 0x03
 		res.dials = append(res.dials, hlib.Tuple(hlib.N(uint64(c.cid)), hlib.HexS(c.addr), hlib.Bool(isTLS)))
 		for _, ri := range all {
-			if bytes.Contains(raw, []byte("/r"+strconv.Itoa(ri.rid)+"_")) {
+			if bytes.Contains(raw, []byte(pathOf(ri.rid))) {
 				res.plain = append(res.plain, hlib.Tuple(hlib.N(uint64(c.cid)), hlib.N(uint64(ri.rid))))
 			}
 		}
